@@ -2,7 +2,7 @@ SPECIFICATION HSpec
 CONSTANTS
   TB <- MCTB
   Grids <- MCGrids
-  NGrids = 3
+  NGrids = 2
   Kinds = {"flux", "simple", "native"}
   Muts = {"none"}
   Ords = {"asc", "desc", "mixed"}
